@@ -46,8 +46,11 @@ def run(ctx, broken):
         p = PProg()
         x = p.w(rng.fe() % 1000); p.rangebits(10, x); y = p.w(rng.fe()); p.logic("xor", 3, x, y); p.pub(rng.fe())
         P = random_subgroup_point(rng); a, _ = p.pt(ext_of(P)); p.add(a, a); p.tf(a)
+        tags = ["gadget-circuit"]
+        if i % 2 == 0:      # every widget incl. the fixed-base one in one circuit (n = 512)
+            sc = p.w(rng.fe() % RJ); p.mulgen(sc, ext_of(random_subgroup_point(rng))); tags.append("all-widgets")
         draws = [draw_hex(rng) for _ in range(14)]
-        cs.append({"line": prove_line(srs, 1100, b"gadgets", draws, 3, p.src(), routes=True), "tags": ["gadget-circuit"]})
+        cs.append({"line": prove_line(srs, 1100, b"gadgets", draws, 3, p.src(), routes=True), "tags": tags})
     r.run(cs)
     # property-level expectations on the implementation
     for c, in [(c,) for c in cs]:
